@@ -98,6 +98,8 @@ class Ref:
             return self.hook[int(w[1]) - 1] == self.hook[int(w[2]) - 1]
         if o == "bigsort":
             return len(self.ls[int(w[1]) - 1]) == 0
+        if o == "foreachmv":
+            return w[1] != w[3] and self.hook[int(w[1]) - 1] == self.hook[int(w[3]) - 1]
         return True
 
     def apply(self, op):
@@ -142,6 +144,14 @@ class Ref:
             if 0 <= k < len(l):
                 return "%d [%s]" % (-3 if k % 2 else 7, ",".join(map(str, l[:k + 1])))
             return "0 [%s]" % ",".join(map(str, l))
+        if o == "foreachmv":
+            k = int(w[2]); dst = self.ls[int(w[3]) - 1]
+            vis = l[:k + 1] if 0 <= k < len(l) else list(l)
+            for e in vis:
+                l.remove(e)
+                dst.append(e)
+            stopped = 0 <= k < len(vis)
+            return "%d [%s]" % ((-3 if k % 2 else 7) if stopped else 0, ",".join(map(str, vis)))
         if o == "clear":
             r = sorted(l)
             del l[:]
@@ -237,6 +247,19 @@ def ref_after(script):
     for op in script:
         ref.apply(op)
     return ref
+
+
+def moving_visitor_scripts():
+    """implementation-only scripts: a traversal whose visit function moves every element it is shown to
+    the end of another list (with and without an early stop)"""
+    out = []
+    for n in (1, 2, 3, 5, 7):
+        fill = ["pushb 1 %d" % (10 + i) for i in range(n)]
+        for other in ([], ["pushb 2 30"]):
+            for stop in sorted(set([-1, 0, n // 2, n - 1])):
+                out.append(fill + other + ["foreachmv 1 %d 2" % stop, "pushb 1 40", "pushb 2 41", "back 1", "back 2",
+                                           "foreach 2 -1", "foreach 1 -1"])
+    return out
 
 
 def sort_pattern_scripts():
